@@ -43,6 +43,20 @@ func main() {
 			n = 40000
 		}
 		h.GenConvMix(rng, n, emit)
+	case "c02":
+		h.GenC02(rng, thorough, emit)
+	case "c03":
+		h.GenC03(rng, thorough, emit)
+	case "c05":
+		h.GenC05(rng, thorough, emit)
+	case "c06":
+		h.GenC06(rng, thorough, emit)
+	case "c07":
+		h.GenC07(rng, thorough, emit)
+	case "c08":
+		h.GenC08(rng, thorough, emit)
+	case "c19":
+		h.GenC19(rng, thorough, emit)
 	default:
 		fmt.Fprintln(os.Stderr, "unknown kind", *kind)
 		os.Exit(2)
